@@ -400,6 +400,6 @@ CLAIM = {
             "concrete, so wrap-around reads (x[i-1] at i = 0), window offsets, shifts, rolls, convolutions and whole-array reductions "
             "are tracked exactly; branches on candle values execute both sides and join (implicit flows). Element i of a returned "
             "series must not depend on a candle j > i. Run for default parameters, shifted periods (odd/even windows) and the smallest periods (1 and 2). "
-            "Indicators using constructs outside the interpreter's table are listed as undecided, never as violations. Length dependence: every indicator whose expression of an element changes with the input length is interpreted on 130 / 12000 candles (and with periods 3 on 130 / 2500) and witness-evaluated on the shared prefix.",
+            "Indicators using constructs outside the interpreter's table are listed as undecided, never as violations. Length dependence: every indicator whose expression of an element changes with the input length is interpreted on 130 / 12000 candles (and with periods 3 on 130 / 2500) and witness-evaluated on the shared prefix. Indicators are functions of their input (R4: no in-place edit of the caller's array, no module-level memo keyed by a projection); ufunc where= without out= yields uninitialised memory; a NaN count used as an index carries its dependence.",
     "note": "Trusted: the numpy model (frozen table of ~150 functions); finite candle values; may-dependence (findings on the unchanged tree were confirmed dynamically before being listed as known findings). One input length per run (60 / 130 candles).",
 }
